@@ -725,8 +725,24 @@ func vDirString(fs []vAofFileImg) string {
 	return strings.Join(s, " ")
 }
 
-// recoverDir: what a start-up does with a directory: FindAofFiles, then LoadAofFiles(rewrite.aof, append files…).
-func (e *vAofEnv) recoverDir(snap []vAofFileImg, cfgBuf uint, now int64) string {
+func vAofKeepKey(buf []byte) string {
+	return vHex(buf[20:53]) // DbId, LockId, LockKey
+}
+
+// filterKept: the records that describe a hold the database still has (the compaction's keep-rule), REWRITED bit ignored.
+func vAofFilterKept(recs []vAofRec, live map[string]bool) string {
+	var out []vAofRec
+	for _, r := range recs {
+		if live[vAofKeepKey(r.buf)] {
+			b := append([]byte{}, r.buf...)
+			b[55] &^= 1
+			out = append(out, vAofRec{b, r.data})
+		}
+	}
+	return vAofRecsString(out)
+}
+
+func (e *vAofEnv) recoverRecs(snap []vAofFileImg, cfgBuf uint, now int64) ([]vAofRec, string) {
 	d := e.freshDir()
 	defer os.RemoveAll(d)
 	for _, f := range snap {
@@ -734,10 +750,12 @@ func (e *vAofEnv) recoverDir(snap []vAofFileImg, cfgBuf uint, now int64) string 
 			panic(err)
 		}
 	}
+	save := e.aof.dataDir
+	defer func() { e.aof.dataDir = save }()
 	e.aof.dataDir = d
 	appendFiles, rewriteFile, err := e.aof.FindAofFiles()
 	if err != nil {
-		return "finderr"
+		return nil, "err"
 	}
 	names := []string{}
 	if rewriteFile != "" {
@@ -745,7 +763,10 @@ func (e *vAofEnv) recoverDir(snap []vAofFileImg, cfgBuf uint, now int64) string 
 	}
 	names = append(names, appendFiles...)
 	got, status := e.load(d, names, cfgBuf, now)
-	return vAofRecsString(got) + ";" + status
+	if status != "ok" {
+		return got, "err"
+	}
+	return got, "ok"
 }
 
 func init() {
@@ -756,20 +777,62 @@ func init() {
 		defer out.close()
 		e := vNewAofEnv(out)
 		defer os.RemoveAll(e.root)
+		// a real LockDB with real holds: the compaction's keep-rule is the real LockDB.HasLock
+		db := NewLockDB(e.slock, 0)
+		e.slock.dbs[0] = db
+		conn := NewMemWaiterServerProtocol(e.slock)
+		_ = conn.SetResultCallback(func(p *MemWaiterServerProtocol, cmd *protocol.LockCommand, result uint8, lcount uint16, lrcount uint8, data []byte) error {
+			return nil
+		})
+		live := map[string]bool{}
+		var liveIds [][2][16]byte
+		for i := 0; i < 6; i++ {
+			cmd := conn.GetLockCommand()
+			cmd.CommandType = protocol.COMMAND_LOCK
+			cmd.DbId = 0
+			cmd.LockId = vId16(1000 + i)
+			cmd.LockKey = vId16(2000 + i)
+			cmd.Timeout = 0
+			cmd.Expried = 5
+			cmd.ExpriedFlag = protocol.EXPRIED_FLAG_UNLIMITED_EXPRIED_TIME | protocol.EXPRIED_FLAG_UNLIMITED_AOF_TIME
+			cmd.Count = 0
+			if err := db.Lock(conn, cmd, 0); err != nil {
+				panic(err)
+			}
+			liveIds = append(liveIds, [2][16]byte{cmd.LockId, cmd.LockKey})
+			k := append([]byte{0}, cmd.LockId[:]...)
+			live[vHex(append(k, cmd.LockKey[:]...))] = true
+		}
+		var liveList []string
+		for k := range live {
+			liveList = append(liveList, k)
+		}
+		sort.Strings(liveList)
 		for it := 0; it < n; it++ {
 			now := int64(1700000000 + r.Intn(1000000))
 			cfg := []uint{64, 128, 4096}[r.Intn(3)]
 			Config.AofFileBufferSize = cfg
 			dir := e.freshDir()
-			// directory before the compaction: optional rewrite.aof, 1–3 closed append files, the current append file
 			first := 1 + r.Intn(3)
 			nfiles := 1 + r.Intn(3)
 			mk := func(name string, nrec int) {
 				recs := []vAofRec{}
 				for i := 0; i < nrec; i++ {
 					rec := vAofGenRec(r, now, i, r.Intn(3) == 0)
-					// unexpired, so that the keep-rule is the only filter
-					rec.buf[57], rec.buf[58], rec.buf[59], rec.buf[60] = 0, 0, 0, 0
+					rec.buf[2] = protocol.COMMAND_LOCK
+					rec.buf[19] = 0 // Flag
+					// unlimited expiry: never filtered by time; HasLock then asks "is there a hold with this LockId on this key"
+					rec.buf[57], rec.buf[58], rec.buf[59], rec.buf[60] = 5, 0, 0, 0x40
+					if r.Intn(3) != 0 {
+						id := liveIds[r.Intn(len(liveIds))]
+						rec.buf[20] = 0
+						copy(rec.buf[21:37], id[0][:])
+						copy(rec.buf[37:53], id[1][:])
+					} else if r.Intn(2) == 0 {
+						rec.buf[20] = 0 // db 0, unknown key: dropped
+					} else {
+						rec.buf[20] = 7 // no such db: dropped
+					}
 					recs = append(recs, rec)
 				}
 				e.write(dir, name, cfg, recs, nil)
@@ -785,14 +848,11 @@ func init() {
 			e.aof.dataDir = dir
 			e.aof.aofFileIndex = uint32(cur)
 			before := vDirSnapshot(dir)
-			// real: which files are compacted, in which order
 			inputs, err := e.aof.findRewriteAofFiles()
 			if err != nil {
 				panic(err)
 			}
-			// real: read the inputs, write rewrite.aof.tmp(.dat). There is no LockDB in this harness: GetDB returns nil and the
-			// callback drops every record (the keep-rule is the engine's HasLock; here keep = none). The order of file-system
-			// mutations, which is what C16_crash is about, does not depend on the keep-rule.
+			// real: read the inputs, apply the real keep-rule, write rewrite.aof.tmp(.dat)
 			_, _, lerr := e.aof.loadRewriteAofFiles(inputs)
 			if lerr != nil {
 				panic(lerr)
@@ -826,32 +886,39 @@ func init() {
 					e.monitor("C16:harness-steps-differ", "the step-by-step replay of clearRewriteAofFiles ends in a different directory than the real function", map[string]string{"real": end, "steps": vDirString(snaps[len(snaps)-1])})
 				}
 			}
-			// differential: the model's step list applied to `before` must produce the same snapshots
-			op := fmt.Sprintf("aofcompact %d %d %s", cfg, cur, vDirString(before))
+			// differential: the model's step list applied to `before` must produce the same snapshots (the real compaction filters
+			// expired records at time.Now(); the generated records never expire)
+			op := fmt.Sprintf("aofcompact %d %d %s %s", cfg, cur, strings.Join(liveList, ","), vDirString(before))
 			obs := make([]string, len(snaps))
 			for i, s := range snaps {
 				obs[i] = vDirString(s)
 			}
 			out.emit(op, strings.Join(obs, " | "))
 			// differential + property: recovery of every intermediate directory
-			base := e.recoverDir(before, cfg, now)
-			out.emit(fmt.Sprintf("aofrecover %d %d %s", cfg, now, vDirString(before)), base)
-			for i, s := range snaps {
-				got := e.recoverDir(s, cfg, now)
-				out.emit(fmt.Sprintf("aofrecover %d %d %s", cfg, now, vDirString(s)), got)
-				if i == 0 || i == len(snaps)-1 {
-					continue // before the first remove the inputs are intact; the final directory is C16_content's business (keep-rule)
+			baseRecs, baseSt := e.recoverRecs(before, cfg, now)
+			showRecover := func(recs []vAofRec, st string) string {
+				if st != "ok" {
+					return "err"
 				}
-				// keep = none in this harness ⇒ the compacted state is "current append file only"; a crash image must recover either
-				// to the pre-compaction state or to the compacted one
-				final := e.recoverDir(snaps[len(snaps)-1], cfg, now)
-				if got != base && got != final {
-					sig := "C16:crash-loses-records"
-					if got == "finderr" {
-						sig = "C16:crash-index-gap"
-					}
-					e.monitor(sig, fmt.Sprintf("a crash after file-system mutation %d of %d of a compaction leaves a directory that recovers to neither the old nor the compacted state", i, len(snaps)-1),
-						map[string]interface{}{"before": vDirString(before), "image": vDirString(s), "recovered": got, "expected": base, "step": i})
+				return vAofRecsString(recs) + ";ok"
+			}
+			out.emit(fmt.Sprintf("aofrecover %d %d %s", cfg, now, vDirString(before)), showRecover(baseRecs, baseSt))
+			want := vAofFilterKept(baseRecs, live)
+			for i, s := range snaps {
+				got, st := e.recoverRecs(s, cfg, now)
+				out.emit(fmt.Sprintf("aofrecover %d %d %s", cfg, now, vDirString(s)), showRecover(got, st))
+				have := vAofFilterKept(got, live)
+				if st == "ok" && have == want {
+					continue
+				}
+				replay := map[string]interface{}{"before": vDirString(before), "image": vDirString(s), "recoveredLiveRecords": have, "expectedLiveRecords": want, "step": i, "steps": len(snaps) - 1, "status": st}
+				switch {
+				case i == len(snaps)-1:
+					e.monitor("C16:content", "recovering from the compacted files does not give the live records of the files they replaced", replay)
+				case st != "ok":
+					e.monitor("C16:crash-startup-fails", fmt.Sprintf("a crash after file-system mutation %d of %d of a compaction leaves a directory on which start-up fails", i, len(snaps)-1), replay)
+				default:
+					e.monitor("C16:crash-loses-records", fmt.Sprintf("a crash after file-system mutation %d of %d of a compaction (inputs removed, rewrite.aof.tmp not yet renamed) leaves a directory that recovers fewer live records", i, len(snaps)-1), replay)
 				}
 			}
 			_ = os.RemoveAll(dir)
